@@ -657,3 +657,14 @@ CONTRACTS += [
       },
       properties=["C03"]),
 ]
+
+
+# ---- hypergraph-level metadata (a dict of the object): the setter installs the given dict, the attribute setter changes one entry, nothing else
+# about the object changes (frame); the getter returns it
+CONTRACTS += [
+    C("get_hypergraph_metadata", params={}, result="Meta", pure=True, ensures={"result": "result == HM(self)"}, properties=['C03', 'C07']),
+    C("set_hypergraph_metadata", params={"metadata": "Meta"}, modifies=["_hypergraph_metadata"],
+      ensures={"HM": "HM(self) == metadata"}, properties=['C03', 'C07']),
+    C("set_attr_to_hypergraph_metadata", params={"field": "Field", "value": "Val"}, modifies=["_hypergraph_metadata"],
+      ensures={"HM": "HM(self) == mset(HM(old(self)), field, value)"}, properties=['C03', 'C07']),
+]
